@@ -1,4 +1,48 @@
-import LZ4V.Spec.Frame
-/-! # C15 — property theorems (in progress) -/
+import LZ4V.Proofs.StreamLProof
+/-!
+# C15 — `lz4 -d` decodes any concatenation of LZ4, legacy and skippable frames
+
+`Spec/FrameL.lean` is the specification of what a stream decodes to (from `doc/lz4_Frame_format.md` and
+`programs/lz4.1.md`), for ANY checksum function and block decoder.  The theorems: decoding is unique, and decoding
+commutes with concatenation, for every sequence of frames of the three kinds in any order.  The subtle case is the
+legacy frame, which has no end mark: it ends at end of input or in front of a known magic number, so it is "local" only
+because every stream that decodes starts with a magic number larger than any legacy block size (`known_gt_bound`).
+Tie: `vlib/cli.py` runs the real `lz4 -d`/`-t` (ST and MT builds, file and pipe, `-m`) on random frame sequences; the
+judge decodes the same bytes with the executable instance of this specification and with `Spec/Frame.lean`.
+-/
 namespace LZ4V.C15
+open LZ4V.Spec.FrameL
+
+/-- two streams that decode, concatenated, decode to the concatenation of their contents -/
+theorem concatenation_decodes (E : Env) (dict a b ca cb : Bytes) (ha : Decodes E dict a ca) (hb : Decodes E dict b cb) :
+    Decodes E dict (a ++ b) (ca ++ cb) := Decodes.append ha hb
+
+/-- any finite sequence of streams (in particular: of single frames of any kind, in any order and number) -/
+theorem concatenation_of_any_sequence (E : Env) (dict : Bytes) : ∀ (parts : List (Bytes × Bytes)),
+    (∀ p ∈ parts, Decodes E dict p.1 p.2) → Decodes E dict (parts.map (·.1)).flatten (parts.map (·.2)).flatten := by
+  intro parts
+  induction parts with
+  | nil => intro _; exact ⟨0, 1, rfl⟩
+  | cons p t ih =>
+    intro h
+    simp only [List.map_cons, List.flatten_cons]
+    exact Decodes.append (h p List.mem_cons_self) (ih (fun q hq => h q (List.mem_cons_of_mem _ hq)))
+
+/-- the decoded content is a function of the input bytes -/
+theorem decoding_unique (E : Env) (dict s c c' : Bytes) (h : Decodes E dict s c) (h' : Decodes E dict s c') : c = c' := h.unique h'
+
+/-- what the executable specification returns is a decoding -/
+theorem executable_spec_sound (E : Env) (dict s c : Bytes) (h : decodeStream E dict s = .ok c) : Decodes E dict s c :=
+  decodeStream_decodes E dict s c h
+
+/-- a single LZ4 / legacy / skippable frame is a stream (non-vacuity: the hypotheses of the theorems above are met by
+    concrete frames, here with a trivial checksum and a block decoder that accepts only the empty payload) -/
+def toyEnv : Env := { hash := fun _ => 0, dec := fun _ p _ => if p = [] then some [] else none }
+-- skippable frame (magic 0x184D2A50, 2 bytes of user data), LZ4 frame with one stored block "AB", legacy frame with no block
+def skipF : Bytes := [0x50, 0x2A, 0x4D, 0x18, 2, 0, 0, 0, 9, 9]
+def lz4F : Bytes := [0x04, 0x22, 0x4D, 0x18, 0x60, 0x40, 0x00, 2, 0, 0, 0x80, 65, 66, 0, 0, 0, 0]
+def legF : Bytes := [0x02, 0x21, 0x4C, 0x18]
+def okIs (r : Except LZ4V.Spec.Frame.Bad Bytes) (c : Bytes) : Bool := match r with | .ok x => x == c | .error _ => false
+example : okIs (decodeStream toyEnv [] (skipF ++ lz4F ++ legF ++ lz4F ++ skipF)) [65, 66, 65, 66] = true := by decide
+
 end LZ4V.C15
